@@ -157,3 +157,25 @@ Example C15_segment_examples :
    | Err _ => False
    end).
 Proof. vm_compute. repeat split; reflexivity. Qed.
+
+(* parse_field / parse_component called directly on any text (standard references): same guarantee;
+   for parse_component the datatype argument is None or a base datatype, as parse_components passes *)
+Theorem C15_parse_field_no_crash : forall v t lvl e (text : str) name force_varies, tables_of v = Some t ->
+  (exists f, parse_field t lvl e (leaf_enc v lvl e) text name None force_varies = Ok f /\
+             forall e', exists x, enc_field t e' f = Ok x) \/
+  (exists c, parse_field t lvl e (leaf_enc v lvl e) text name None force_varies = Err (HL7 c)).
+Proof.
+  intros v t lvl e text name fv Ht.
+  exact (sp_cases _ _ (shipped_parse_field_safe v t lvl e text name fv Ht)).
+Qed.
+Print Assumptions C15_parse_field_no_crash.
+
+Theorem C15_parse_component_no_crash : forall v t lvl e (text : str) name datatype, tables_of v = Some t ->
+  datatype = None \/ base t datatype = true ->
+  (exists c, parse_component t lvl e (leaf_enc v lvl e) text name datatype None = Ok c) \/
+  (exists c, parse_component t lvl e (leaf_enc v lvl e) text name datatype None = Err (HL7 c)).
+Proof.
+  intros v t lvl e text name dt Ht Hd.
+  destruct (sp_cases _ _ (shipped_parse_component_safe v t lvl e text name dt Ht Hd)) as [[c [H _]]|[c H]]; eauto.
+Qed.
+Print Assumptions C15_parse_component_no_crash.
